@@ -450,7 +450,10 @@ class Decimal(Element):
     def _unconvert_decimal(self, value: decimal.Decimal):
         if self.scale is not None and not value.same_quantum(self.scale):
             raise ValueError(f"'{value}' doesn't match scale={self.scale}")
-        return str(value)
+        if not value.is_finite():
+            raise ValueError(f"'{value}' can't be written as an OFX amount")
+        # Plain notation; str() switches to exponent notation (e.g. '1E+2', '0E-8')
+        return format(value, "f")
 
     @unconvert.register
     def _unconvert_none(self, value: None) -> None:
